@@ -1,6 +1,7 @@
 import Driver.Ops
 import Driver.State
 import Driver.Typed
+import Driver.Upd
 open SMD SMD.Wire
 namespace Driver
 
@@ -12,6 +13,12 @@ def step (st : State) (line : String) : State × String :=
     (match (arg pSchema fun sc => done sc) rest with
      | some (sc, _) => ({ st with schema := sc }, "ok types=" ++ toString sc.types.length)
      | none => (st, "bad-args typ.schema"))
-  | _ => (st, runOpWith (allOps ++ opsTyped st) line)
+  | some (name, rest) =>
+    if name.startsWith "upd." then
+      match stepUpd st name rest with
+      | some r => r
+      | none => (st, "bad-args " ++ name)
+    else (st, runOpWith (allOps ++ opsTyped st) line)
+  | none => (st, "bad-op")
 
 end Driver
